@@ -1,16 +1,16 @@
 // replay for property=C04 harness=program_lines::verif_program_lines::c04_history_3 module=verif_program_lines crate=abasic-core src=src/program_lines.rs
 // failing check: "c04: the successor of a line is the least stored line above it"
 // native dev: panicked; release: not run (playback supports the dev profile only)
-// panicked at /tmp/verif-abasic-544jge0k/abasic-core/verif_h/verif_program_lines.rs:115:5: | c04: the successor of a line is the least stored line above it
+// panicked at /tmp/verif-abasic-pf41ydhy/abasic-core/verif_h/verif_program_lines.rs:115:5: | c04: the successor of a line is the least stored line above it
 /// Test generated for harness `program_lines::verif_program_lines::c04_history_3` 
 ///
 /// Check for `assertion`: ""c04: the successor of a line is the least stored line above it""
 
 #[test]
-fn kani_concrete_playback_c04_history_3_14355913962547756600() {
+fn kani_concrete_playback_c04_history_3_1110245719209149841() {
     let concrete_vals: Vec<Vec<u8>> = vec![
-        // 3
-        vec![3],
+        // 2
+        vec![2],
         // 18446744073709551615ul
         vec![255, 255, 255, 255, 255, 255, 255, 255],
         // 18446744073709551615ul
